@@ -217,6 +217,15 @@ def history(ctx):
         muts = driver.history_mutations(R)
         ok = R.exc is not None and R.exc.typename == "ValueError" and not muts and len(R.mineral.attrs["orientations"]) == R.nsnap
         ctx.ob("C07.history", f"unsupported regime {regime}", ok, f"exception {R.exc!r}; history events {[(k, w) for _, k, w, _ in muts]}", mloc)
+    # invalid phase / fabric ordinals held by the mineral itself (hand-built, or loaded from a corrupted archive): the update raises
+    # instead of returning numbers, and stores nothing
+    for field, bad in (("phase", 2), ("phase", 7), ("phase", -1), ("fabric", 6), ("fabric", -1)):
+        R = driver.run_update(ctx, N=2, stub_derivatives=False, mineral_patch=lambda m_, f_=field, b_=bad: m_.attrs.__setitem__(f_, b_))
+        muts = driver.history_mutations(R)
+        ok = R.exc is not None and not muts and len(R.mineral.attrs["orientations"]) == R.nsnap
+        ctx.ob("C07.history", f"mineral with invalid {field} ordinal {bad}", ok,
+               (f"the update returned {type(R.result).__name__} instead of raising" if R.exc is None else f"exception {R.exc!r}") +
+               f"; history events {[(k, w) for _, k, w, _ in muts]}", mloc)
     for fail_at in (1, 2):
         R = driver.run_update(ctx, N=2, nsteps=2, fail_at=fail_at)
         muts = driver.history_mutations(R)
@@ -243,7 +252,7 @@ def history(ctx):
         muts = driver.history_mutations(R)
         ctx.ob("C07.history", f"get_regime returns the raw ordinal {raw}", R.exc is not None and R.exc.typename == "ValueError" and not muts,
                f"exception {R.exc!r}; history events {[(k, w) for _, k, w, _ in muts]}" + ("" if R.exc is not None else " (an invalid/unsupported ordinal produced numbers)"), mloc)
-    ctx.floor("C07.history", 10)
+    ctx.floor("C07.history", 15)
     # the regime in force in an evaluation of the right-hand side at (t, x(t)) is the one the callback reports for that same (t, x(t))
     ctx.rule("C07.callback", "with a regime callback, every evaluation of the right-hand side at time t hands core.derivatives the regime reported by "
                              "get_regime(t, x(t)) for that t (a regime entered during the interval takes effect, so a null or unsupported regime cannot be skipped)")
